@@ -110,6 +110,8 @@ def modules():
         one(QLike(5, "m")), one([QLike(1, "m"), QLike(2, "m")]),
         lambda: P([("o", O([("x", 1)])), ("g", G([("^TABLE", QLike(5, "BYTES"))]))]),
         lambda: P([("n", QLike("abc", "m"))]),
+        # a set that the ODL family refuses, a string that is a symbol or a text depending on an option, a tab
+        one(frozenset([1.5])), one("AB CD"), one("a\tb"), one(frozenset(["x y", 1.5])),
         # the other family of container classes (pvl.new), groups only / groups and an object
         lambda: __import__("pvl.new").new.loads("GROUP = g\n a = 1\nEND_GROUP\nGROUP = h\n b = 2\nEND_GROUP\nEND\n"),
         lambda: __import__("pvl.new").new.loads("OBJECT = o\n GROUP = g\n  a = 1\n END_GROUP\nEND_OBJECT\nk = 1\nEND\n"),
@@ -234,7 +236,10 @@ def make(kind, name):
     if kind == "parser":
         return impl.make_parser(name)
     if kind == "encoder":
-        return impl.make_encoder(name)
+        base, _, opt = name.partition(":")
+        e = impl.make_encoder(base, **ENCODER_OPTIONS[opt])
+        _MADE_AS[e] = name
+        return e
     if kind == "decoder":
         return impl.make_grammar_decoder(name)[1]
     if kind == "validate":
@@ -246,11 +251,17 @@ def make(kind, name):
     raise KeyError(kind)
 
 
+# encoders are also explored with non-default options (what a failing call may leave switched)
+ENCODER_OPTIONS = {"": {}, "opts": {"width": 40, "aggregation_end": False},
+                   "pdsopts": {"symbol_single_quote": False, "tab_replace": 2, "convert_group_to_object": False}}
+
 INTERFERE = -1     # "somebody else in the process uses other instances"
 LOADS_FOREIGN = -2  # parser: pvl.loads(text, parser=OURS, grammar=<another>, decoder=<another>) - a convenience
 #                     function must not reconfigure the instance it is handed
 SHARED_DUMP = -3    # encoder: dump a module object that lives as long as the encoder ...
 SHARED_EDIT = -4    # ... after the caller has edited one of its groups (and toggles the edit back next time)
+SHARED_FAIL = -5    # ... with a value no encoder can write put into a nested group for this one call (the dump
+#                     fails part-way, the value is taken out again)
 
 
 def alphabet(kind):
@@ -259,7 +270,7 @@ def alphabet(kind):
     if kind == "validate":
         return [INTERFERE] + list(range(len(TEXTS)))
     if kind == "encoder":
-        return [INTERFERE, SHARED_DUMP, SHARED_EDIT] + list(range(len(modules())))
+        return [INTERFERE, SHARED_DUMP, SHARED_EDIT, SHARED_FAIL] + list(range(len(modules())))
     if kind == "translate":
         return [INTERFERE] + list(range(len(modules())))
     return [INTERFERE] + list(range(len(DEC_CALLS)))
@@ -283,8 +294,24 @@ def rebuilt(m):
     return m
 
 
-def shared_call(inst, edit):
+_MADE_AS = __import__("weakref").WeakKeyDictionary()
+
+
+def _fresh_like(inst):
+    """a new encoder built the same way (class and options) as the one under test"""
+    return make("encoder", _MADE_AS.get(inst, _NAME_OF[type(inst)]))
+
+
+def shared_call(inst, edit, fail=False):
     m = shared_module(inst)
+    if fail:
+        m["o"]["h"].append("bad", complex(1, 2))
+        try:
+            got = outcome_encode(inst, lambda: m)
+        finally:
+            m["o"]["h"].pop()
+        want = outcome_encode(_fresh_like(inst), lambda: P_with_bad(m))
+        return ("shared-same",) if got[:2] == want[:2] else ("shared-differs", got, want)
     if edit:
         for g in (m["g"], m["o"]["h"]):
             first = g[0][0]
@@ -293,8 +320,14 @@ def shared_call(inst, edit):
             else:
                 g.append(first, 99)          # a repeated keyword: no longer a valid PDS3 GROUP
     got = outcome_encode(inst, lambda: m)
-    want = outcome_encode(make("encoder", _NAME_OF[type(inst)]), lambda: rebuilt(m))
+    want = outcome_encode(_fresh_like(inst), lambda: rebuilt(m))
     return ("shared-same",) if got == want else ("shared-differs", got, want)
+
+
+def P_with_bad(m):
+    r = rebuilt(m)
+    r["o"]["h"].append("bad", complex(1, 2))
+    return r
 
 
 def interfere():
@@ -342,8 +375,8 @@ def do_call(kind, inst, i):
             return ("ok", canon(pvl.loads(TEXTS[0], parser=inst, grammar=og, decoder=od)))
         except Exception as e:  # noqa: BLE001
             return ("exc", type(e).__name__, _msg(e))
-    if i in (SHARED_DUMP, SHARED_EDIT):
-        return shared_call(inst, i == SHARED_EDIT)
+    if i in (SHARED_DUMP, SHARED_EDIT, SHARED_FAIL):
+        return shared_call(inst, i == SHARED_EDIT, i == SHARED_FAIL)
     if kind == "parser":
         return outcome_parse(inst, TEXTS[i])
     if kind == "validate":
@@ -529,6 +562,7 @@ def run(ctx):
         specs.append(("decoder", name, depth if ctx.quick else 3))
     for name in impl.ENCODERS:
         specs.append(("encoder", name, depth))
+        specs.append(("encoder", name + (":pdsopts" if name == "PDS3" else ":opts"), 2))
         specs.append(("translate", name, 2))
     for name in ("PDS3", "ODL", "PVL", "ISIS", "Omni"):
         specs.append(("validate", name, 2))
